@@ -103,7 +103,8 @@ Definition sstatus_eqb (a b : sstatus) : bool :=
 (* failure reasons (the harness maps the failure event's text to these) *)
 Inductive fail_code :=
 | FStepLimit | FNoCategory | FChildFailed | FMissingFlow | FMaxResumes | FNoLocation | FNoWait
-| FRouteError | FParentNodeGone | FParentMissingFlow | FEnterMissingFlow | FEnterFlowType.
+| FRouteError | FParentNodeGone | FParentMissingFlow | FEnterMissingFlow | FEnterFlowType
+| FVoiceNoCall.   (* "can't resume run in voice flow without call" (session.canContinue) *)
 
 Inductive ekind :=
 | EMsgReceived (t : text)
@@ -565,6 +566,13 @@ Definition run_flow_unusable (a : assets) (s : session) (ri : nat) : bool :=
   | None => true
   end.
 
+(* the failure the engine reports for an unusable flow: the missing-flow failure, or the voice-without-call failure *)
+Definition unusable_code (a : assets) (s : session) (ri : nat) (missing : fail_code) : fail_code :=
+  match get_run s ri with
+  | Some rn => match get_flow a (r_flow rn) with None => missing | Some _ => FVoiceNoCall end
+  | None => missing
+  end.
+
 Fixpoint continue_until_wait (fuel : nat) (a : assets) (x : st) (l : lstate) : result_ :=
   match fuel with
   | O => ROutOfFuel
@@ -638,7 +646,7 @@ Fixpoint continue_until_wait (fuel : nat) (a : assets) (x : st) (l : lstate) : r
                   if negb child_failed then
                     let flow_missing := run_flow_unusable a (session_ x) pi in
                     if flow_missing
-                    then continue_until_wait fuel' a (fail_run x pi None FParentMissingFlow) l
+                    then continue_until_wait fuel' a (fail_run x pi None (unusable_code a (session_ x) pi FParentMissingFlow)) l
                     else
                       match find_resume_exit a x pi false [] with
                       | FreOk x' e op =>
@@ -789,7 +797,7 @@ Definition resume_session (a : assets) (s : session) (r : resume) (tmo : text) :
     | Some wi =>
         let x := {| session_ := s; sprint_ := empty_sprint |} in
         let flow_missing := run_flow_unusable a s wi in
-        if flow_missing then Resumed (ROk (fail_session x wi FMissingFlow))
+        if flow_missing then Resumed (ROk (fail_session x wi (unusable_code a s wi FMissingFlow)))
         else if (Z.of_nat (count_waits s) >=? max_resumes (a_opts a))%Z
         then Resumed (ROk (fail_session x wi FMaxResumes))
         else
@@ -841,7 +849,7 @@ Definition resume_m (a : assets) (s : session) (r : resume) (tmo : text) : st * 
     | Some wi =>
         let failed (c : fail_code) (x : st) := let x' := fail_session x wi c in (x', ORes (ROk x')) in
         let flow_missing := run_flow_unusable a s wi in
-        if flow_missing then failed FMissingFlow x
+        if flow_missing then failed (unusable_code a s wi FMissingFlow) x
         else if (Z.of_nat (count_waits s) >=? max_resumes (a_opts a))%Z then failed FMaxResumes x
         else
           match path_location a s wi with
